@@ -565,9 +565,9 @@ func spaces(tier string) []kit.Space {
 		ecs[i] = astgen.ExprCase(e)
 	}
 	return []kit.Space{
-		caseSpace("expressions", ecs, 2),
-		caseSpace("statements", astgen.Statements(tier), slots),
-		caseSpace("corpus", astgen.Corpus(), slots),
+		caseSpace("1-expressions", ecs, 2),
+		caseSpace("2-statements", astgen.Statements(tier), slots),
+		caseSpace("3-corpus", astgen.Corpus(), slots),
 	}
 }
 
